@@ -233,6 +233,8 @@ def hostile(rng, files, trig=0.15):
     r = rng.random()
     if r < .05:
         return eof_program(rng)
+    if r < .08:
+        return ''.join(inflate(split_keep(corpus_slice(rng, files, maxlines=12, inject=(0, 1)) if rng.random() < .6 else mixed(rng)), rng))
     if r < .30:
         return mixed(rng)
     if r < .30 + trig:
@@ -313,6 +315,50 @@ def eof_program(rng):
             out.append(ind + rng.choice(['pass\n', 'x = 1\n', '...\n', '# c\n', '\n']))
     out.append((ind or '') + rng.choice(_EOF_LAST) + rng.choice(_EOF_ENDS))
     return ''.join(out)
+
+
+# ---------------------------------------------------------------------------
+# size thresholds: tokens and physical lines around the sizes at which implementations change behaviour
+# (small-int cache 256, typical memo/bloom thresholds 1024/4096, 16-bit limits)
+
+_SIZES = [255, 256, 257, 300, 1023, 1024, 1025, 2000, 4096, 5000, 65535, 65536, 70000]
+
+
+def long_token_line(rng, indent=''):
+    """one statement holding a very long token or making a very long physical line"""
+    n = rng.choice(_SIZES[:10] if rng.random() < .985 else _SIZES)
+    k = rng.randrange(10)
+    if k == 0:
+        return indent + 'x = "' + 'a' * n + '"\n'
+    if k == 1:      # triple-quoted over many lines
+        w = rng.choice([40, 70, 120])
+        body = '\n'.join('l' * w for _ in range(n // w + 1))
+        return indent + 's = """' + body + '"""\n'
+    if k == 2:
+        return indent + '# ' + 'c' * n + '\n'
+    if k == 3:
+        return indent + 'n' * n + ' = 1\n'
+    if k == 4:
+        return indent + 'x = ' + '1' * n + '\n'
+    if k == 5:      # f-string text running to the end of a long physical line
+        return indent + 'f = f"""' + 't' * n + '\n{x}' + 'u' * (n // 2) + '\nend"""\n'
+    if k == 6:
+        return indent + "g = f'" + 'a' * n + "\\\n" + 'b' * 10 + "{y}'\n"
+    if k == 7:
+        return indent + 'x = [' + ', '.join(['1'] * (n // 3)) + ']\n'
+    if k == 8:
+        return indent + 'x = 1' + ' ' * n + '# trailing\n'
+    return indent + 'x = (' + ' + '.join(['a'] * (n // 4)) + ')\n'
+
+
+def inflate(lines, rng):
+    """insert one long-token statement at a line boundary with the indentation of the following line"""
+    lines = list(lines)
+    k = rng.randint(0, len(lines))
+    nxt = lines[k] if k < len(lines) else ''
+    ind = nxt[:len(nxt) - len(nxt.lstrip(' \t'))] if nxt.strip() else ''
+    lines.insert(k, long_token_line(rng, ind))
+    return lines
 
 # ---------------------------------------------------------------------------
 # histories (C04, C20)
